@@ -98,6 +98,9 @@ func c15e3RaceRound(v c15e3Variant, round int) (returned int) {
 			m.AcceptStream(cctx)
 		})
 	}
+	if v.Acceptor2 {
+		bodies = append(bodies, func() { m.AcceptStream(cctx) })
+	}
 	// start order rotates with the round
 	for i := range bodies {
 		b := bodies[(i+round)%len(bodies)]
